@@ -52,12 +52,15 @@ def ref_depths(text, variables, mode="spec"):
                 return True
         return False
 
-    def levels(selections, visiting, top=False):
-        """max number of nested field levels"""
+    def levels(parts, top=False):
+        """max number of nested field levels.  parts: [(selections, fragments being expanded around them)].
+        CollectFields' visited-fragments set is per selection set (a fragment spread again at a deeper level counts
+        again); only a spread of a fragment from inside its own expansion (a cycle, never generated) is cut."""
         groups = {}
         order = []
+        visited = set()
 
-        def collect(sels):
+        def collect(sels, stack):
             for s in sels:
                 if skipped(s):
                     continue
@@ -66,34 +69,35 @@ def ref_depths(text, variables, mode="spec"):
                     key = s["alias"]["value"] if s["alias"] else s["name"]["value"]
                     if key not in groups:
                         order.append(key)
-                    groups.setdefault(key, []).append(s)
+                    groups.setdefault(key, []).append((s, stack))
                 elif k == "InlineFragment":
                     if mode == "top-level-fragments-ignored" and top:
                         continue
-                    collect(s["selection_set"]["selections"])
+                    collect(s["selection_set"]["selections"], stack)
                 else:
                     if mode == "top-level-fragments-ignored" and top:
                         continue
                     n = s["name"]["value"]
-                    if n in visiting or n not in frags:
+                    if n in visited or n in stack or n not in frags:
                         continue
-                    visiting.add(n)
-                    collect(frags[n]["selection_set"]["selections"])
+                    visited.add(n)
+                    collect(frags[n]["selection_set"]["selections"], stack | {n})
 
-        collect(selections)
+        for sels, stack in parts:
+            collect(sels, stack)
         best = 0
         for key in order:
             nodes = groups[key]
             if mode == "merged-key-first-field-only":
                 nodes = nodes[:1]
-            subs = [s for f in nodes if f["selection_set"] for s in f["selection_set"]["selections"]]
-            best = max(best, 1 + (levels(subs, set(visiting)) if subs else 0))
+            subs = [(f["selection_set"]["selections"], stack) for f, stack in nodes if f["selection_set"]]
+            best = max(best, 1 + (levels(subs) if subs else 0))
         return best
 
     out = {}
     for i, d in enumerate(tree["definitions"]):
         if d["__kind__"] == "OperationDefinition":
-            out[i] = max(0, levels(d["selection_set"]["selections"], set(), top=True) - 1)
+            out[i] = max(0, levels([(d["selection_set"]["selections"], frozenset())], top=True) - 1)
     return out, tree
 
 
@@ -104,6 +108,7 @@ class Gen:
         self.frags = []
         self.vars = {}
         self.use_vars = use_vars
+        self.frag_on = {}   # completed named fragments (re-used at other nesting levels; never cyclic: post-order)
 
     def coin(self, a=1, b=2):
         return self.d(st.integers(0, b - 1)) < a
@@ -128,6 +133,7 @@ class Gen:
         if k == 2:
             name = "F%d" % len(self.frags)
             self.frags.append("fragment %s on %s { %s }" % (name, self.parent, " ".join(body)))
+            self.frag_on[name] = self.parent
             return ["...%s%s" % (name, self.directive())]
         return body
 
@@ -153,6 +159,11 @@ class Gen:
                     pos = self.d(st.integers(0, len(items)))
                     items.insert(pos, "%s%s { %s }" % (key, f, " ".join(sub2)))
         self.parent = parent
+        mine = sorted(n for n, on in self.frag_on.items() if on == parent)
+        if mine and self.coin(1, 4):
+            # an already completed fragment spread again, here (another nesting level, before or after its first use)
+            items.insert(self.d(st.integers(0, len(items))), "...%s%s" % (self.d(st.sampled_from(mine)), self.directive()))
+            self.reused = True
         if self.coin(1, 2):
             i = self.d(st.integers(0, len(items) - 1))
             j = self.d(st.integers(i + 1, len(items)))
